@@ -13,7 +13,9 @@ export CARGO_NET_OFFLINE=true
 demo="$src/demo$n.rs"
 tname="seeded_demo_$n"
 feat=""
-grep -q "protobuf" "$src/notes$n.md" 2>/dev/null && grep -qi "features protobuf" "$src/notes$n.md" && feat="--features protobuf"
+grep -qi "features protobuf" "$src/notes$n.md" 2>/dev/null && feat="--features protobuf"
+grep -qi "features descriptive-deserialize-errors" "$src/notes$n.md" 2>/dev/null && feat="--features descriptive-deserialize-errors"
+[ -f "$src/features$n" ] && feat="--features $(cat $src/features$n)"
 {
 echo "repo HEAD: $(git -C /repo rev-parse --short HEAD)"
 echo "== apply patch"
